@@ -11,10 +11,5 @@ CONSTANTS
   AckTails <- TailsRssi
   Bug = "flip_up_on_lost"
 INVARIANT PropertyHolds
-INVARIANT StepFormHolds
 INVARIANT CompleteAtRest
-INVARIANT SafelinkIffEcho
-INVARIANT NeedsResendingIsNotSafelink
-INVARIANT Lockstep
-INVARIANT TypeOK
 CHECK_DEADLOCK FALSE
